@@ -13,6 +13,7 @@ warning); a statement NumPy rejects is discarded on the spot and counted.
 
 from __future__ import annotations
 
+import json
 import warnings
 
 import numpy as np
@@ -39,6 +40,13 @@ def leaf_data(leaf):
     if kind in ("ones", "zeros", "full"):
         fill = {"ones": 1, "zeros": 0}.get(kind, leaf.get("fill", 7))
         return np.full(shape, fill, dtype=dt)
+    if kind.startswith("rand:"):
+        # no NumPy twin: the reference value is what the seeded dask_array source computes the first time
+        # (only engines that compare dask_array with itself draw these leaves)
+        key = json.dumps(leaf, sort_keys=True)
+        if key not in _RANDOM_VALUES:
+            _RANDOM_VALUES[key] = np.asarray(random_leaf(leaf).compute(scheduler="sync"))
+        return _RANDOM_VALUES[key].copy()
     if dt == np.bool_:
         a = (base % 3) == 0
     elif dt.kind == "u":
@@ -53,6 +61,26 @@ def leaf_data(leaf):
         m = int(leaf["nan"])
         flat[(np.arange(flat.size) % m) == (m // 2)] = np.nan
     return a
+
+
+_RANDOM_VALUES = {}
+RANDOM_KINDS = ("rand:rs-choice", "rand:rs-sample", "rand:gen-random", "rand:gen-integers")
+
+
+def random_leaf(leaf):
+    import dask_array as da
+
+    shape = tuple(leaf["shape"])
+    ch = tuple(tuple(c) for c in leaf["chunks"])
+    seed = 1 + abs(int(leaf.get("offset", 0)))
+    kind = leaf["kind"]
+    if kind == "rand:rs-choice":
+        return da.random.RandomState(seed).choice(17, size=shape, chunks=ch)
+    if kind == "rand:rs-sample":
+        return da.random.RandomState(seed).random_sample(size=shape, chunks=ch)
+    if kind == "rand:gen-integers":
+        return da.random.default_rng(seed).integers(0, 50, size=shape, chunks=ch)
+    return da.random.default_rng(seed).random(size=shape, chunks=ch)
 
 
 def gen_shape(D_, max_rank=3, max_len=6, min_rank=0):
@@ -72,6 +100,11 @@ def gen_leaf(D_, shape=None, dtype=None, max_rank=3, max_len=8, kinds=("numpy",)
     size = int(np.prod(shape)) if shape else 1
     offset = D_.choice([0, 1, -(size // 2), -3, 10])
     leaf = {"shape": list(shape), "dtype": dt, "chunks": [list(c) for c in gchunks.array_chunks(D_, shape)], "offset": offset, "kind": D_.choice(list(kinds))}
+    if leaf["kind"].startswith("rand:"):
+        if not shape or size == 0:
+            leaf["kind"] = "numpy"
+        else:
+            leaf["dtype"] = "i8" if leaf["kind"] in ("rand:rs-choice", "rand:gen-integers") else "f8"
     return leaf
 
 
@@ -1384,6 +1417,8 @@ def default_leaf_factory(leaf, data):
         return da.zeros(tuple(leaf["shape"]), dtype=leaf["dtype"], chunks=ch)
     if kind == "full":
         return da.full(tuple(leaf["shape"]), leaf.get("fill", 7), dtype=leaf["dtype"], chunks=ch)
+    if kind.startswith("rand:"):
+        return random_leaf(leaf)
     return da.from_array(data.copy(), chunks=ch)
 
 
